@@ -294,8 +294,9 @@ class SyntaxCheckInstance(Visitor):
     def _visit_for(self, stmt: ForStmt, ctx: _Ctx):
         env = ctx.env
         self._visit_expr(stmt.iterable, ctx)
-        env = self._visit_binding(stmt.target, env)
-        body_env = self._visit_block(stmt.body, _Ctx(env, False))
+        # the target is bound inside the loop only: with no iterations it never is
+        loop_env = self._visit_binding(stmt.target, env)
+        body_env = self._visit_block(stmt.body, _Ctx(loop_env, False))
         return env.merge(body_env)
 
     def _visit_context(self, stmt: ContextStmt, ctx: _Ctx):
